@@ -205,6 +205,12 @@ def _observe(scn, sched, pairs, aio):
     except Exception as e:  # noqa: BLE001
         obs["rows_err"] = f"{type(e).__name__}: {e}"
     obs["n"] = len(sched.jobs)
+    try:
+        it = list(sched.jobs)
+        obs["iter_dues"] = [core.inst_of(j.datetime) for j in it]
+        obs["sorted_dues"] = [core.inst_of(j.datetime) for j in sorted(it)]
+    except Exception as e:  # noqa: BLE001
+        obs["sort_err"] = f"{type(e).__name__}: {e}"
     return obs
 
 
@@ -316,6 +322,11 @@ def specs(r):
         qs.append((f"spec eq {ob['body_len']} {ob['W'] * (n + 2)}", {"what": "row_width: table is n+2 chunks of the header-row width", "rows": n}))
         qs.append((f"spec eq {1 if ('#jobs=%d' % ob['n']) in ob.get('heading', '') else 0} 1", {"what": "count_in_heading", "heading": ob.get("heading")}))
         qs.append((f"spec eq {n} {ob['n']}", {"what": "one_row_per_job"}))
+    if ob.get("sort_err"):
+        qs.append(("spec eq 0 1", {"what": "sorted(scheduler.jobs) raised", "err": ob["sort_err"]}))
+    elif "iter_dues" in ob:
+        # the order the table is printed in: Python's sorted() over Job.__lt__ against the model's stable sort by due instant
+        qs.append((f"spec sorteddues {core.s_list(ob['iter_dues'])} {core.s_list(ob['sorted_dues'])}", {"what": "sorted(jobs) is the ascending stable order by due instant"}))
     return qs
 
 
